@@ -181,6 +181,7 @@ class C05(Prop):
                 variant = printing.ROOT_VARIANTS[case["rseed"] % len(printing.ROOT_VARIANTS)] if case["rseed"] % 2 else "plain"
                 import random
                 rv = printing.RootVariant(lib, jv, variant, random.Random(case["rseed"]))
+                want = nullify_nonfinite(rv.jv)
                 if variant != "plain":
                     stats.cls("ownership_flags_variant")
                 try:
